@@ -17,6 +17,21 @@ CHECKS = {
         text="A one-step reference model of the documented value rules (exact rational numbers, bytewise strings, nil/unlike-kind rules, element-wise arrays) is compared with the real engine on every ordered pair of a ~130-value universe (every kind, every numeric width, boundary magnitudes) under all 7 operators, as variables and as literals; independently the coherence laws (!= is not ==, > is swapped <, <= is < or ==, reflexivity, symmetry) are checked on the implementation's own answers, and every and/or expression with <=3 operators (chains and fully parenthesised trees) over 8 truthiness values is evaluated. Every model transition is validated against the implementation.",
         note="Reference model mc/ref (imports nothing from /repo). Left unspecified by the statement and therefore only checked for coherence and never-fails: map==map, ordering of booleans/arrays/maps, contains on scalars, non-string needle in a string.",
         tech="exhaustive pair-universe x operator enumeration against a reference model, plus algebraic laws on the implementation's own outputs"),
+    "C15": dict(
+        cat="model_checking", ref="4/C15",
+        text="Reference list functions (reverse, uniq, compact, concat, map, first, last, size, join) and order/permutation predicates (sort, sort by key, sort_natural) are compared with the real filters on every array of length <=3 (quick) / <=5 (thorough) over five element alphabets (ints, floats, strings, ints+nil, maps with present/absent/nil key), in every Go representation that can hold it, through each filter and all chains of two; additionally the input array must render unchanged after the filter ran (non-mutation) and every representation must give the []any result.",
+        note="Reference in mc/props/c15.go + mc/ref. Unspecified: sort order between unlike kinds/nil/maps, stability, ordered YAML maps as array input.",
+        tech="exhaustive small-array enumeration x representations x filter pipelines against reference list functions and permutation/order predicates"),
+    "C16": dict(
+        cat="model_checking", ref="4/C16",
+        text="Rune-based reference string functions and the laws named in the statement (concatenation, case mapping, strip family, replace/remove all vs first, split/join inverse, size/slice/truncate/truncatewords in characters and never lengthening, escape leaves no raw specials, escape_once idempotent, url round trip, non-string receivers act as their printed text, UTF-8 validity) are checked against the real filters on every string of length <=3 (quick) / <=4 (thorough) over a 12-symbol alphabet containing multi-byte characters and HTML/URL specials, with all integer parameters in -3..12 and all string parameters up to length 1/2.",
+        note="Unspecified (no-error + UTF-8 still checked): truncate with n < ellipsis length, truncatewords n < 1, slice out-of-range start / negative length (substring of <= n chars required), empty search pattern, size of a non-string scalar.",
+        tech="exhaustive string enumeration over a small alphabet x parameter grid against rune-based reference functions and algebraic laws"),
+    "C17": dict(
+        cat="model_checking", ref="4/C17",
+        text="Exact rational arithmetic (math/big) is the reference for plus, minus, times, divided_by, modulo, abs, ceil, floor, round over all pairs of a ~110-operand numeric universe (ints -12..12 and boundary magnitudes up to 2^53 as int and float, other widths, quarters, numeric and non-numeric strings, nil), as variables and literals, plus all chains of two and three binary steps over a 7-value universe; results must parse back to the exact value whenever operands and result are float64-representable, whole results print as digits, ceil/floor print integers, division/modulo by zero and non-numeric strings must be errors.",
+        note="Accepted alternatives: floor or truncation for negative integer quotients, either sign convention for modulo. Unspecified: nil operands, numeric strings as arguments.",
+        tech="exhaustive operand-pair and operation-chain enumeration against exact rational arithmetic"),
 }
 
 NOT_YET = "check not built yet (work in progress; see DESIGN.md section 7 build order)"
